@@ -114,8 +114,25 @@ FrameOK(r) ==
                                      D!DMul(OrthoTol(t), D!DAdd(D!DOne, D!DAdd(D!DAbs(Mi[4][j]), D!DAdd(D!DAbs(pj[j]), D!DAbs(pi[j]))))))
       [] OTHER -> FALSE
 
-Judge(r) == CASE r.e = "set" -> SetOK(r) [] r.e = "inplace" -> InplaceOK(r) [] r.e = "frame" -> FrameOK(r) [] OTHER -> FALSE
-What(r) == CASE r.e = "set" -> <<r.e, r.fn, r.t, r.n>> [] r.e = "inplace" -> <<r.e, r.op, r.t, r.n>> [] OTHER -> <<r.e, r.fn, r.t>>
+\* addOffset(in, t, r, s, ref) = S(s) * O * in * ref, with O the rotation builder's matrix for r degrees (logged; judged by its
+\* own "set"/"inplace" records) carrying t in its translation row.  Every entry within 64 eps of the exact product, at the
+\* scale of the product of absolute values.
+MVt(A, B2) == MatVal(MatMul(A, B2))
+AbsMt(A) == [i \in 1..Len(A) |-> [j \in 1..Len(A[i]) |-> D!DAbs(A[i][j])]]
+AddOffsetOK(r) ==
+    LET t == r.t IN
+    \* every product is bound once (TLC evaluates operator arguments lazily: a nested product passed as an argument would be
+    \* recomputed at each of its 64 references)
+    \E m \in {[In |-> Sq(t, r.in, 4), Ref |-> Sq(t, r.ref, 4), R |-> Sq(t, r.R, 4), to |-> Nums(t, r.to), S |-> SetScale(4, Nums(t, r.so)), X |-> Sq(t, r.out, 4)]} :
+    \E Om \in {[i \in 1..4 |-> [j \in 1..4 |-> IF i = 4 /\ j < 4 THEN m.to[j] ELSE m.R[i][j]]]} :
+    \E p1 \in {[P |-> MVt(m.In, m.Ref), A |-> MVt(AbsMt(m.In), AbsMt(m.Ref))]} :
+    \E p2 \in {[P |-> MVt(Om, p1.P), A |-> MVt(AbsMt(Om), p1.A)]} :
+    \E p3 \in {[P |-> MVt(m.S, p2.P), A |-> MVt(AbsMt(m.S), p2.A)]} :
+          /\ \A i \in 1..3 : D!DEq(m.R[i][4], D!DZero)                                                  \* the logged builder matrix is a linear map
+          /\ \A i \in 1..4, j \in 1..4 : D!DWithin(m.X[i][j], p3.P[i][j], D!DAdd(D!DMul(D!DMul(D!DInt(64), Eps(t)), p3.A[i][j]), Tiny(t)))
+
+Judge(r) == CASE r.e = "addoffset" -> AddOffsetOK(r) [] r.e = "set" -> SetOK(r) [] r.e = "inplace" -> InplaceOK(r) [] r.e = "frame" -> FrameOK(r) [] OTHER -> FALSE
+What(r) == CASE r.e = "set" -> <<r.e, r.fn, r.t, r.n>> [] r.e = "inplace" -> <<r.e, r.op, r.t, r.n>> [] r.e = "addoffset" -> <<r.e, r.t>> [] OTHER -> <<r.e, r.fn, r.t>>
 Init == l = 1 /\ cur = <<>> /\ prog = <<>>
 Next == \/ /\ l <= TraceLen
            /\ LET r == Rec IN
